@@ -75,7 +75,8 @@ def check_variant(prog, cls, target, text0=None):
             # spelling agrees with it, the two spellings differ: that is C11's business.
             # If both disagree (or the deviation is a recorded engine quirk) it is
             # C01/C02's.
-            if st0 == 'fail' and ':quirk:' not in (b0 or ''):
+            if st0 == 'fail' and ':quirk:' not in (b0 or '') and \
+                    not (b0 or '').startswith('rejected_valid'):   # a refusal is C01's (D11)
                 st2, b2, d2 = common.compiled_vs(cols, exp, text2, pred, rules2,
                                                  quirk_prog=prog, cols_any_order=True)
                 if st2 == 'ok':
